@@ -53,22 +53,34 @@ def runCase (prop : String) (lines : List String) : String × Bool × Bool :=
   (s!"CASE {n} K={if kOk then "ok" else "mismatch"} O={if o.ok then "ok" else "fail"} variant={vname} pattern={o.pattern} line={if kOk then oline else lineNo} cov={if cov.isEmpty then "-" else cov} detail={detail}",
    kOk, o.ok)
 
+/-- One case: verdict line, K ok, O ok. -/
+def evalCase (prop : String) (c : List String) : String × Bool × Bool :=
+  let isC11 : Bool := match c.head? with | some l => decide ((l.splitOn "family=c11").length > 1) | none => false
+  if prop == "C01" then TV.Driver.C01.evalCase c
+  else if isC11 then TV.Driver.C11.evalCase c else runCase prop c
+
+/-- The trace is read line by line and evaluated case by case (a thorough-tier trace is gigabytes long;
+    only the current case is held in memory). -/
+partial def loop (prop : String) (h : IO.FS.Handle) (cur : List String) (n kbad obad : Nat) : IO (Nat × Nat × Nat) := do
+  let raw ← h.getLine
+  let eof := raw.isEmpty
+  let l := if raw.endsWith "\n" then (raw.dropEnd 1).toString else raw
+  if eof || l.startsWith "CASE " then
+    let (n, kbad, obad) ← if cur.isEmpty then pure (n, kbad, obad) else do
+      let (out, k, o) := evalCase prop cur.reverse
+      IO.println out
+      pure (n + 1, if k then kbad else kbad + 1, if o then obad else obad + 1)
+    if eof then return (n, kbad, obad)
+    loop prop h [l] n kbad obad
+  else if l.isEmpty then loop prop h cur n kbad obad
+  else loop prop h (if cur.isEmpty then [] else l :: cur) n kbad obad
+
 def main (args : List String) : IO UInt32 := do
   match args with
   | [prop, path] =>
-    let text ← IO.FS.readFile path
-    let lines := (text.splitOn "\n").filter (· != "")
-    let cases := splitCases lines
-    let mut kbad := 0
-    let mut obad := 0
-    for c in cases do
-      let isC11 : Bool := match c.head? with | some l => decide ((l.splitOn "family=c11").length > 1) | none => false
-      let (out, k, o) := if prop == "C01" then TV.Driver.C01.evalCase c
-                         else if isC11 then TV.Driver.C11.evalCase c else runCase prop c
-      IO.println out
-      if !k then kbad := kbad + 1
-      if !o then obad := obad + 1
-    IO.println s!"SUMMARY cases={cases.length} kmismatch={kbad} ofail={obad}"
+    let h ← IO.FS.Handle.mk path .read
+    let (n, kbad, obad) ← loop prop h [] 0 0 0
+    IO.println s!"SUMMARY cases={n} kmismatch={kbad} ofail={obad}"
     return 0
   | _ =>
     IO.eprintln "usage: tvcoredriver <PROP> <trace-file>"
